@@ -7,7 +7,7 @@ from tools.framework import Case, Err
 from harness.midi_common import *
 
 ID = "C20"
-LEAN_MODULES = ["Mingus.Props.C20", "Mingus.Props.C20Chord", "Mingus.Props.C20Decode", "Mingus.Props.C20Track", "Mingus.Props.C20Comp", "Mingus.Tie.C20"]
+LEAN_MODULES = ["Mingus.Props.C20", "Mingus.Props.C20Chord", "Mingus.Props.C20Decode", "Mingus.Props.C20Track", "Mingus.Props.C20Comp", "Mingus.Props.C20Pinned", "Mingus.Tie.C20"]
 RULE = ("every registered tuning (76) x every string x notes 0..127 (quick: every 3rd) x maxfret {0,12,24}: find_frets and "
         "get_Note incl. out-of-range strings and frets; seeded random note sets (1-4 notes) per tuning x max_distance 1-6 against "
         "a brute-force specification of find_fingering; chord shorthands x roots on the guitar-family single-string tunings for "
@@ -139,6 +139,12 @@ def tab_bar_pinned(t, entries, width):
             b.place_notes(nc, v)
     return lines(tablature.from_Bar(b, width, tun))
 
+def tab_note_pinned(t, s_, f_, width):
+    """one note taken from the tuning (get_Note(string, fret)): it carries string / fret attributes"""
+    from mingus.extra import tablature
+    tun = mk_tuning(t)
+    return lines(tablature.from_Note(tun.get_Note(s_, f_), width, tun))
+
 def tab_composition(comp, width):
     from mingus.extra import tablature
     from mingus.containers import Composition
@@ -162,7 +168,7 @@ def tab_composition_safe(comp, width):
         return err_of(e)
 
 IMPL = {"tun.frets": tun_frets, "tun.note": tun_note, "tun.fingering": tun_fingering, "tun.chord": tun_chord,
-        "tun.get": tun_get, "tun.gets": tun_gets, "tab.note": tab_note, "tab.nc": tab_nc, "tab.bar_pinned": tab_bar_pinned, "tab.nc_form": tab_nc_form, "tab.track_via": tab_track_via, "tab.bar": tab_bar,
+        "tun.get": tun_get, "tun.gets": tun_gets, "tab.note": tab_note, "tab.nc": tab_nc, "tab.bar_pinned": tab_bar_pinned, "tab.note_pinned": tab_note_pinned, "tab.nc_form": tab_nc_form, "tab.track_via": tab_track_via, "tab.bar": tab_bar,
         "tab.track": tab_track, "tab.composition": tab_composition}
 
 def has_model(c):
@@ -373,6 +379,9 @@ def cases(tier, rng):
         for ents in ([[4, [[2, 0], [2, 2]]], [4, None], [2, [[1, 3]]]], [[2, [[0, 0], [0, 5], [3, 2]]], [2, [[1, 0], [2, 0]]]],
                      [[4, [[3, 1]]], [4, [[3, 1], [3, 3]]], [4, [[0, 3], [1, 2], [2, 0], [3, 0]]], [4, None]]):
             out.append(Case("tab.bar_pinned", [tn, ents, 80], tag="tab:bar-pinned", model=False))
+        for s_ in range(len(tn)):
+            for f_ in (0, 1, 3, 7, 12, 17, 24):
+                out.append(Case("tab.note_pinned", [tn, s_, f_, 40], tag="tab:note-pinned"))
     # a track drawn on the tuning IT holds (Track.tuning, set_tuning) or that only its instrument holds: no tuning argument
     def pn(p):
         o, pc = divmod(p, 12)
@@ -554,6 +563,12 @@ def oracle(c, obs):
         if isinstance(obs, Err):
             return "a playable %s raised %s" % ("note" if fn == "tab.note" else "container", obs.name)
         return check_tab(obs, opens, [sorted(npitch(x) for x in ns)])
+    elif fn == "tab.note_pinned":
+        t, s_, f_, w = a
+        opens = open_pitches(t)
+        if isinstance(obs, Err):
+            return "a note taken from the tuning (string %d, fret %d) raised %s" % (s_, f_, obs.name)
+        return check_tab(obs, opens, [[opens[s_] + f_]])
     elif fn == "tab.bar_pinned":
         t, ents, w = a
         opens = open_pitches(t)
